@@ -106,6 +106,13 @@ func (rt *stubRT) RoundTrip(req *http.Request) (*http.Response, error) {
 		return nil, err
 	}
 	if rt.probe {
+		if s := vrt.Cur(); s != nil {
+			s.Yield("probe-in-flight:" + st.name)
+			// the context may have been cancelled while the probe was on its way out
+			if err := req.Context().Err(); err != nil {
+				return nil, err
+			}
+		}
 		st.probes++
 		switch st.probeMode {
 		case "500":
